@@ -377,6 +377,7 @@ Section Stmt.
   Lemma srow_spec k : srow_ok k (tc_stmt D k) = true ->
     match k with
     | K_Jump | K_AbsTimeLabel | K_Label | K_ScopeEnd | K_NoInstruction => tc_stmt D k = D_Walk \/ tc_stmt D k = D_Skip
+    | K_CallSub => tc_stmt D k = D_Reject \/ tc_stmt D k = D_Unimpl
     | _ => tc_stmt D k = spec_srow k
     end.
   Proof.
@@ -464,7 +465,7 @@ Section Stmt.
     - (* assign *) simpl. rewrite Hrow. cbn [apply_check]. rewrite join_ok, of_outcome_ok, (assign_ok cur v op e Hg). tauto.
     - (* decl *) simpl. rewrite Hrow. cbn [apply_check]. rewrite join_ok, of_outcome_ok, (decls_ok kw vars Hg).
       split; intros Hw; [destruct Hw; constructor; auto | inversion Hw; auto].
-    - (* callsub *) simpl. rewrite Hrow. split; intros Hw; [discriminate | inversion Hw].
+    - (* callsub *) simpl. destruct Hrow as [Hrow|Hrow]; rewrite Hrow; split; intros Hw; try discriminate; inversion Hw.
     - (* interrupt *) simpl. rewrite Hrow. cbn [apply_check]. rewrite join_ok, of_outcome_ok, (check_cond_ok e Hg).
       split; intros Hw; [destruct Hw; constructor; auto | inversion Hw; auto].
     - (* abstime *) simpl. destruct Hrow as [Hrow|Hrow]; rewrite Hrow; split; intros; auto; constructor.
